@@ -101,7 +101,7 @@ func (fr *Frame) invoke(ins ssa.Instruction, cc *ssa.CallCommon, recv *Val, args
 	return fr.havocVal("invoke_"+cc.Method.Name(), resSort)
 }
 
-// havocVars havocs whole state variables but preserves entries of objects allocated before.
+// havocVars havocs whole state variables.
 func (fr *Frame) havocVars(vars []string) {
 	ex := fr.ex
 	for _, v := range vars {
@@ -112,6 +112,38 @@ func (fr *Frame) havocVars(vars []string) {
 			continue
 		}
 		ex.havoc(fr.cur, v)
+	}
+}
+
+// havocCallee havocs the static mod set of a contract-less (or modifies-less) callee; variables the
+// callee writes only at freshly allocated references keep their values at older references.
+func (fr *Frame) havocCallee(callee *ssa.Function) {
+	ex := fr.ex
+	mi := ex.mods.info(callee)
+	if mi.all {
+		ex.havocAll(fr.cur)
+		return
+	}
+	oldAlloc := ex.get(fr.cur, "alloc")
+	if mi.allocates {
+		n := ex.havoc(fr.cur, "alloc")
+		ex.vc.assume("(>= " + n + " " + oldAlloc + ")")
+	}
+	for _, v := range sortedKeys(mi.vars) {
+		if v != "alloc" {
+			ex.havoc(fr.cur, v)
+		}
+	}
+	for _, v := range sortedKeys(mi.allocVars) {
+		if mi.vars[v] || v == "alloc" {
+			continue
+		}
+		s := ex.svSort(v)
+		old := ex.get(fr.cur, v)
+		n := ex.havoc(fr.cur, v)
+		if s.K == KArr && s.Key.K == KInt {
+			ex.vc.assume("(forall ((r Int)) (! (=> (<= r " + oldAlloc + ") (= (select " + n + " r) (select " + old + " r))) :pattern ((select " + n + " r))))")
+		}
 	}
 }
 
@@ -145,12 +177,7 @@ func (fr *Frame) callStatic(ins ssa.Instruction, callee *ssa.Function, args []*V
 		return &Val{S: resSort, Tup: res}
 	}
 	// no contract, not inlinable: havoc static mod set
-	mods, all := ex.mods.FuncMods(callee)
-	if all {
-		ex.havocAll(fr.cur)
-	} else {
-		fr.havocVars(mods)
-	}
+	fr.havocCallee(callee)
 	ex.vc.note("call to " + key + " without contract (has loops): results unconstrained, effects = static mod set")
 	return fr.havocVal("call_"+callee.Name(), resSort)
 }
@@ -194,12 +221,7 @@ func (fr *Frame) applyContract(ins ssa.Instruction, c *Contract, key string, cal
 	if c.HasMod {
 		fr.havocByModifies(c, env, callee)
 	} else if callee != nil {
-		mods, all := ex.mods.FuncMods(callee)
-		if all {
-			ex.havocAll(post)
-		} else {
-			fr.havocVars(mods)
-		}
+		fr.havocCallee(callee)
 	} else {
 		vc.note("interface contract " + key + " without modifies clause: assumed to modify nothing tracked")
 	}
